@@ -55,6 +55,23 @@ func (fr *Frame) onMakeChan(i *ssa.MakeChan, ref Term) {
 	}
 }
 
+// capturedVal: a closure's free variable is a pointer to the captured variable's cell; contract
+// expressions name the variable itself, so the cell is read (in state st).
+func (fr *Frame) capturedVal(fv *ssa.FreeVar, cell *Val, st *State) *Val {
+	pt, ok := fv.Type().Underlying().(*types.Pointer)
+	if !ok {
+		return cell
+	}
+	if isStruct(pt.Elem()) {
+		return &Val{T: cell.T, S: SInt, Typ: pt.Elem(), Addr: true}
+	}
+	if isArray(pt.Elem()) {
+		return cell
+	}
+	hn, hs := fr.U().ptrHeapT(pt.Elem())
+	return fr.mkVal(sel(fr.vc.heap(st, hn, hs), cell.T), pt.Elem())
+}
+
 func (fr *Frame) specEnvHere() *SpecEnv {
 	n := 8000 + len(fr.vc.cmds)
 	vars := map[string]*Val{}
@@ -65,7 +82,7 @@ func (fr *Frame) specEnvHere() *SpecEnv {
 	}
 	for _, p := range fr.fn.FreeVars {
 		if v, ok := fr.vals[p]; ok {
-			vars[p.Name()] = v
+			vars[p.Name()] = fr.capturedVal(p, v, fr.st)
 		}
 	}
 	entry := fr.entry
